@@ -1,12 +1,18 @@
 #!/bin/bash
-# mutant evaluation queue: lines "<mutant-dir> <seeded-id> <checks...>" appended to /tmp/mutq.todo are processed (3 at a time)
+# mutant evaluation queue: lines "<mutant-dir> <seeded-id> <checks...>" appended to /tmp/mutq.todo; rolling pool of N jobs
+N=${MUTQ_N:-4}
 cd /verif
-touch /tmp/mutq.todo /tmp/mutq.done
+touch /tmp/mutq.todo /tmp/mutq.done /tmp/mutq.started
 while true; do
-  mapfile -t lines < <(grep -vxFf /tmp/mutq.done /tmp/mutq.todo | head -3)
-  if [ ${#lines[@]} -eq 0 ]; then sleep 15; [ -f /tmp/mutq.stop ] && exit 0; continue; fi
-  for l in "${lines[@]}"; do
-    ( tools/keep_mutant.sh $l 2>&1 | grep "^/verif/seeded" >> /tmp/mutq.log; echo "$l" >> /tmp/mutq.done ) &
-  done
-  wait
+  [ -f /tmp/mutq.stop ] && exit 0
+  running=$(pgrep -fc 'tools/keep_mutant[.]sh' || true)
+  if [ "$running" -lt "$N" ]; then
+    l=$(grep -vxFf /tmp/mutq.started /tmp/mutq.todo | head -1)
+    if [ -n "$l" ]; then
+      echo "$l" >> /tmp/mutq.started
+      ( timeout 2400 tools/keep_mutant.sh $l 2>&1 | grep "^/verif/seeded" >> /tmp/mutq.log; echo "$l" >> /tmp/mutq.done ) &
+      sleep 2; continue
+    fi
+  fi
+  sleep 10
 done
